@@ -28,4 +28,7 @@ def plan(tier, seed):
         qs.append(Q("hist-%s" % s, "c14.c", {"H_HIST": None, "SCRIPT": '"%s"' % s, "M4RI_VERIF_MMC_NBLOCKS": 2, "_LIBDEFS": ("M4RI_VERIF_MMC_NBLOCKS=2",)},
                     cfg="def", group="c14-hist", checks="safety", leak=True, timeout=900, fallback="kissat", mem_gb=8,
                     cbmc_flags=("--max-field-sensitivity-array-size", "16")))
+    for s in ["d0d", "e0d", "dd01dd", "d0e1d"]:   # 256-byte blocks == block-cache threshold when L3 = 256 bytes
+        qs.append(Q("hist-%s-defsmall" % s, "c14.c", {"H_HIST": None, "SCRIPT": '"%s"' % s}, cfg="defsmall", group="c14-hist-defsmall", checks="safety", leak=True, timeout=900,
+                    cbmc_flags=("--max-field-sensitivity-array-size", "16")))
     return qs
